@@ -26,7 +26,8 @@ KNOWN_CLASSES = {
 }
 SIG_FUNC_ORDER = "funcObject:lazy-prototype-listed-before-index-keys"
 SIG_DYN_CYCLE = "dynamicObject:setPrototypeOf-cycle"
-SIG_GOWRAP_PANIC = "gowrapper:defineProperty-without-value-panics"
+SIG_NIL_PANIC = "exotic-defineProperty-nil-deref:"          # + kind
+SIG_GOSLICE_GROWS = "goslice:non-extensible-slice-grows"
 
 
 # ----------------------------------------------------------------------------------------------- table (corr A)
@@ -136,8 +137,8 @@ def table_check(ctx, h, model):
     ctx.stats["table_diff_vs_fixed"] = len(d1)
     ctx.stats["table_results"] = {"reject": sum(1 for x in impl if x == "R"), "plain": sum(1 for x in impl if x.startswith("P 1")),
                                   "valueProperty": sum(1 for x in impl if x.startswith("P 2"))}
-    for i in range(0, len(cells), 997):
-        ctx.nontriv(("cell", cells[i]))
+    for c in cells:
+        ctx.nontriv(("cell", c))              # every cell is a distinct (existing shape, descriptor shape, extensible) triple
     ctx.stats["table_distinct_cells"] = len(set(cells))
     ok = variant is not None
     detail = "implementation == Lean transcription variant %s on all %d cells" % (variant, len(cells))
@@ -363,6 +364,10 @@ def classify_monitor(case, mon, idxs, j, verdict):
             break
     if kind == "func" and "key-order" in verdict and "step" not in verdict and ml.split("keys=[")[1].startswith("sprototype"):
         return SIG_FUNC_ORDER
+    if kind == "goslice" and verdict.strip() == "bad step" and prev is not None and " ext=f" in mon[prev]:
+        a, b = parse_props(mon[prev]), parse_props(ml)
+        if set(a) < set(b) and all(k.startswith("i") for k in set(b) - set(a)):
+            return SIG_GOSLICE_GROWS
     if verdict.strip() == "bad step" and prev is not None:
         a, b = parse_props(mon[prev]), parse_props(ml)
         ops = [lines[x].split() for x in range(idxs[prev] + 1, idxs[j] + 1)]
@@ -566,8 +571,10 @@ def main(ctx):
     for c, l, li in panics:
         op = case_lines(c)[li].split()
         kind = c["objs"][int(op[2][1:])][0] if len(op) > 2 and op[2][1:].isdigit() else "?"
-        if op[0] == "def" and kind in ("gomap", "gostruct") and op[4] == "-" and "nil pointer" in l:
-            sig = SIG_GOWRAP_PANIC
+        if op[0] in ("frz", "seal"):
+            kind = c["objs"][int(op[1][1:])][0]
+        if op[0] in ("def", "frz", "seal") and kind in ("gomap", "gostruct", "goslice", "u8") and "nil pointer" in l:
+            sig = SIG_NIL_PANIC + kind
         else:
             sig = "panic:%s:%s" % (kind, op[0] + op[1])
         if sig in seen_p:
